@@ -1,6 +1,7 @@
 SPECIFICATION TraceSpec
 CONSTANTS
   OrderBy = "declared"
+  Chain = "first"
   Decode = "path"
   Packages = {}
 INVARIANTS DeclaredPrefix OwnPage
